@@ -241,5 +241,71 @@ func main() {
 				e.Strs("doSearchOrder", ss, "doSearch: the search call and the error classification steps, source order")
 			}
 		}
-	}, "proxyapi/grpc_v1.go", "pkg/storeapi/store_api.pb.go", "proxy/search/ingestor.go", "proxy/search/merged_docs_iterator.go")
+		// ---- how the handlers pair ids and documents; does Export report a partial result
+		if a, err := r.Load("proxyapi/grpc_v1.go"); err == nil {
+			if fd := a.Func("", "makeProtoDocs"); fd == nil {
+				e.Missing("protoDocsPairing", "makeProtoDocs not found")
+			} else {
+				var st []string
+				ast.Inspect(fd.Body, func(n ast.Node) bool {
+					if as, ok := n.(*ast.AssignStmt); ok {
+						r := a.Render(as)
+						if strings.HasPrefix(r, "doc.Id =") || strings.HasPrefix(r, "doc.Data =") || strings.Contains(r, "docs.Next()") {
+							st = append(st, r)
+						}
+					}
+					if rs, ok := n.(*ast.RangeStmt); ok {
+						st = append(st, "range "+a.Render(rs.X))
+					}
+					return true
+				})
+				e.Strs("protoDocsPairing", st, "makeProtoDocs: loop and assignments (pairing by position)")
+			}
+		}
+		idFromDoc := func(rel, recv, fn, name string) {
+			f2, err := r.Load(rel)
+			if err != nil {
+				e.Missing(name, err)
+				return
+			}
+			fd := f2.Func(recv, fn)
+			if fd == nil {
+				e.Missing(name, fn+" not found")
+				return
+			}
+			var ids []string
+			ast.Inspect(fd.Body, func(n ast.Node) bool {
+				if kv, ok := n.(*ast.KeyValueExpr); ok && f2.Render(kv.Key) == "Id" {
+					ids = append(ids, f2.Render(kv.Value))
+				}
+				return true
+			})
+			e.Strs(name, ids, fn+": where the Id of a sent document comes from")
+		}
+		idFromDoc("proxyapi/grpc_export.go", "grpcV1", "Export", "exportDocID")
+		idFromDoc("proxyapi/grpc_fetch.go", "grpcV1", "Fetch", "fetchDocID")
+		if x, err := r.Load("proxyapi/grpc_export.go"); err != nil {
+			e.Missing("exportReportsPartial", err)
+		} else if fd := x.Func("grpcV1", "Export"); fd == nil {
+			e.Missing("exportReportsPartial", "Export not found")
+		} else {
+			// after the send loop: an `if` on sResp.err whose body returns a status error
+			seenLoop, reports := false, false
+			for _, st := range fd.Body.List {
+				switch s := st.(type) {
+				case *ast.ForStmt:
+					seenLoop = true
+				case *ast.IfStmt:
+					if seenLoop && strings.Contains(x.Render(s.Cond), "sResp.err") {
+						for _, b := range s.Body.List {
+							if r, ok := b.(*ast.ReturnStmt); ok && len(r.Results) == 1 && strings.HasPrefix(x.Render(r.Results[0]), "status.Error") {
+								reports = true
+							}
+						}
+					}
+				}
+			}
+			e.Bool("exportReportsPartial", reports, "Export: after the send loop a partial result (sResp.err != nil) ends the stream with a status error")
+		}
+	}, "proxyapi/grpc_v1.go", "proxyapi/grpc_export.go", "proxyapi/grpc_fetch.go", "pkg/storeapi/store_api.pb.go", "proxy/search/ingestor.go", "proxy/search/merged_docs_iterator.go")
 }
